@@ -42,13 +42,23 @@ fn build(md: &Value) -> Command {
     c
 }
 
+fn man_of(md: &Value) -> clap_mangen::Man {
+    let mut m = clap_mangen::Man::new(build(md));
+    if !bytes_of(&md["ov_title"]).is_empty() { m = m.title(st(&md["ov_title"])); }
+    if !bytes_of(&md["ov_section"]).is_empty() { m = m.section(st(&md["ov_section"])); }
+    if !bytes_of(&md["ov_date"]).is_empty() { m = m.date(st(&md["ov_date"])); }
+    if !bytes_of(&md["ov_source"]).is_empty() { m = m.source(st(&md["ov_source"])); }
+    if !bytes_of(&md["ov_manual"]).is_empty() { m = m.manual(st(&md["ov_manual"])); }
+    m
+}
+
 pub fn observe(md: &Value, universe: &[Vec<u8>]) -> Value {
     let md2 = md.clone();
     let r = guarded(std::panic::AssertUnwindSafe(move || {
         let mut a = vec![];
-        clap_mangen::Man::new(build(&md2)).render(&mut a).unwrap();
+        man_of(&md2).render(&mut a).unwrap();
         let mut b = vec![];
-        clap_mangen::Man::new(build(&md2)).render(&mut b).unwrap();
+        man_of(&md2).render(&mut b).unwrap();
         (a, b)
     }));
     match r {
